@@ -266,4 +266,44 @@ theorem PQ_le (F G L : ℝ) :
     have : 0 ≤ Real.sin G ^ 2 * Real.cos L ^ 2 * Real.sin F ^ 2 + Real.cos F ^ 2 * Real.sin L ^ 2 * Real.cos G ^ 2 := by positivity
     linarith
 
+
+/-- Joint constraint of the two correction terms: `P s + Q c ≤ s c`, i.e. `P/c + Q/s ≤ 1`; the difference is
+    `cos²L sin²L (sin²F + sin²G − 1)²`. -/
+theorem PQ_joint (F G L : ℝ) :
+    (Real.sin F ^ 2 * Real.cos G ^ 2) * (Real.sin G ^ 2 * Real.cos L ^ 2 + Real.cos F ^ 2 * Real.sin L ^ 2)
+      + (Real.cos F ^ 2 * Real.sin G ^ 2) * (Real.cos G ^ 2 * Real.cos L ^ 2 + Real.sin F ^ 2 * Real.sin L ^ 2)
+      ≤ (Real.sin G ^ 2 * Real.cos L ^ 2 + Real.cos F ^ 2 * Real.sin L ^ 2)
+        * (Real.cos G ^ 2 * Real.cos L ^ 2 + Real.sin F ^ 2 * Real.sin L ^ 2) := by
+  have hF : Real.cos F ^ 2 = 1 - Real.sin F ^ 2 := by linarith [Real.sin_sq_add_cos_sq F]
+  have hG : Real.cos G ^ 2 = 1 - Real.sin G ^ 2 := by linarith [Real.sin_sq_add_cos_sq G]
+  have hL : Real.cos L ^ 2 = 1 - Real.sin L ^ 2 := by linarith [Real.sin_sq_add_cos_sq L]
+  have hz0 := sq_nonneg (Real.sin L)
+  have hz1 : Real.sin L ^ 2 ≤ 1 := Real.sin_sq_le_one L
+  rw [hF, hG, hL]
+  generalize Real.sin F ^ 2 = x
+  generalize Real.sin G ^ 2 = y
+  generalize Real.sin L ^ 2 = z at hz0 hz1 ⊢
+  have key : (y * (1 - z) + (1 - x) * z) * ((1 - y) * (1 - z) + x * z)
+      - (x * (1 - y) * (y * (1 - z) + (1 - x) * z) + (1 - x) * y * ((1 - y) * (1 - z) + x * z))
+      = (1 - z) * z * (x + y - 1) ^ 2 := by ring
+  have : 0 ≤ (1 - z) * z * (x + y - 1) ^ 2 := by
+    apply mul_nonneg (mul_nonneg (by linarith) hz0) (sq_nonneg _)
+  linarith
+
+/-- With the joint constraint the flattening correction lies in `[-2, 1]`. -/
+theorem correction_range_joint {s c P Q R : ℝ} (hs : 0 < s) (hc : 0 < c) (hP0 : 0 ≤ P) (hQ0 : 0 ≤ Q)
+    (hPQ : P * s + Q * c ≤ s * c) (hR0 : 0 < R) (hR1 : R ≤ 1) :
+    -2 ≤ (3 * R - 1) / (2 * c) * P - (3 * R + 1) / (2 * s) * Q ∧
+    (3 * R - 1) / (2 * c) * P - (3 * R + 1) / (2 * s) * Q ≤ 1 := by
+  obtain ⟨p, hp⟩ : ∃ p, p = P / c := ⟨_, rfl⟩
+  obtain ⟨q, hq⟩ : ∃ q, q = Q / s := ⟨_, rfl⟩
+  have hp0 : 0 ≤ p := by rw [hp]; positivity
+  have hq0 : 0 ≤ q := by rw [hq]; positivity
+  have hpq : p + q ≤ 1 := by
+    rw [hp, hq, div_add_div _ _ hc.ne' hs.ne', div_le_one (by positivity)]; linarith
+  have e : (3 * R - 1) / (2 * c) * P - (3 * R + 1) / (2 * s) * Q = (3 * R - 1) / 2 * p - (3 * R + 1) / 2 * q := by
+    rw [hp, hq]; field_simp
+  rw [e]
+  constructor <;> nlinarith [mul_nonneg hp0 hR0.le, mul_nonneg hq0 hR0.le]
+
 end Pymeeus.Refine.Ellipsoid
